@@ -116,7 +116,9 @@ func (w *c15World) probeExport() bool {
 			return w.fail("export-when-not-clean/"+why, "ExportCryptoState succeeded on %s although the stream has a %s (sent=%d recv=%d)", name, why, e.sentProt, e.recvProt)
 		}
 		if err != nil && e.modelClean() {
-			w.res.Outcome("conservative-refusal")
+			// established in both directions, nothing half-sent, nothing half-read: this is the
+			// boundary at which the property says a hand-off works
+			return w.fail("export-refused-at-clean-boundary", "ExportCryptoState on %s refused at a message boundary (sent=%d recv=%d, %d earlier hand-offs): %v", name, e.sentProt, e.recvProt, e.handoffs, err)
 		}
 	}
 	return true
@@ -126,7 +128,7 @@ func (w *c15World) handoff(e *c15End, name string) bool {
 	blob, err := e.s.ExportCryptoState()
 	if err != nil {
 		if e.modelClean() {
-			w.res.Outcome("handoff-refused-though-clean")
+			return w.fail("export-refused-at-clean-boundary", "hand-off of %s refused at a message boundary: %v", name, err)
 		}
 		return true
 	}
